@@ -39,7 +39,7 @@ impl<'a> RegExp<'a> {
         let mut dfa = Dfa::from(&grapheme_clusters, true, config);
         let mut ast = Expression::from(dfa, config);
 
-        if config.is_start_anchor_disabled && config.is_end_anchor_disabled {
+        if config.is_end_anchor_disabled {
             // The self-check is only possible if the expression is a valid pattern for the
             // regex crate, which is not the case e.g. when surrogate pairs are used.
             if let Some(regex) = Self::convert_expr_to_regex(&ast, config) {
